@@ -38,6 +38,6 @@ pub fn run(ctx: &mut Ctx) {
         ctx.eval(fnv(&data) ^ level as u64);
         ctx.count("ratio_cases");
         if st != miniz_oxide::deflate::core::TDEFLStatus::Done { ctx.violation(id, "status", format!("one-shot Finish returned {:?}", st), format!("SCHED {} sink=0 tiny=0 seed=0 in={}", cfg.describe(), hex(&data))); continue; }
-        ctx.line(&format!("ENC id={} checks=rt,mode,ratio modes={} {} in={} comp={}", id, cfg.modes(), cfg.describe(), hex(&data), hex(&out)));
+        ctx.line(&format!("ENC id={} rp=SCHED;sink=0;tiny=0;seed=0;oneshot=1 checks=rt,mode,ratio modes={} {} in={} comp={}", id, cfg.modes(), cfg.describe(), hex(&data), hex(&out)));
     }
 }
